@@ -768,7 +768,8 @@ def gen_builder(ctx):
         mk_bf(ctx, N, [ok], ["builder"], default={"syntax": "=", "form": "lit", "value": 0})
     # list arrays in which element i collides only with element i+d, d >= 2 (never with its neighbour): the overlap decision
     # has to compare every pair of elements, not only adjacent ones (seeded S80)
-    for N in [b for b in bases if b >= 20]:
+    some = [b for b in bases if b >= 20] if ctx.tier == "thorough" else [b for b in bases if b in (24, 32, 33, 64, 100, 128)]
+    for N in some:
         for (d, s) in ((2, 4), (3, 3), (2, 1)):
             hi = d * s
             if hi + d * s >= N:
@@ -792,7 +793,7 @@ def gen_builder(ctx):
             mk_bf(ctx, N, [ra], ["builder", "far-overlap"], default={"syntax": "=", "form": "lit", "value": 0})
     # fields that are NOT writable never matter for the builder decision: a read-only / unspecified list naming a bit twice,
     # a read-only list array whose elements collide (seeded S102)
-    for N in [b for b in bases if b >= 16]:
+    for N in ([b for b in bases if b >= 16] if ctx.tier == "thorough" else [b for b in bases if b in (16, 24, 64, 127, 128)]):
         for acc in ("r", ""):
             cmd = mk_field("cmd", int_kind(4), 4, [(0, 3)], access="w")
             view = mk_field("view", "arb", 6, [(8, 11), (11, 11), (11, 11)], access=acc)
